@@ -45,6 +45,14 @@ CHECKS = {
          "compiled in a child process with a reduced stack.", "DESIGN.md §7 C08, notes/C08.md",
          "translators/callgraph.py over-approximates call edges and recognises guard sites; that every guard restores its "
          "counter is an assumption checked only by exploration. Open finding C08-ast-drop-recursion."),
+ "C09": ("proof", "No-panic theorems for the modelled kernels that take attacker-controlled integers (module value access "
+         "paths, entrypoint / RVA arithmetic of pe and elf, version-info walk, dotnet method ranges, macho fat recursion); the "
+         "file-format modules themselves are explored: every asset x structure-aware mutations x generated module-querying "
+         "rules x scan modes (contiguous, fragmented with described != fetched lengths, process_memory), debug build, child "
+         "processes with a hang watchdog; published collection sizes against the translated caps.",
+         "DESIGN.md §7 C09, notes/C09.md",
+         "Proof only for the listed kernels; pe/elf/macho/dotnet/dex parsers over the object crate are not modelled "
+         "(exploration). hash/math argument clipping is C16's, evaluator and memory kernels C04/C11's."),
  "C10": ("proof", "Generic wire codec round-trip theorem; write/read schemas and rebuild parameters of every `mod wire` block "
          "regenerated from the source on each run and proved to agree; correspondence: byte identity of re-serialisation, rule "
          "listing and scan results of original vs reloaded scanner.", "DESIGN.md §7 C10, notes/C10.md",
@@ -97,7 +105,6 @@ CHECKS = {
 PENDING = {
  "C03": "check under construction (regex strings / matches operator: Spec/Regex.v exists, property module not yet registered)",
  "C07": "check under construction (three-way run against libyara 4.5.5 not yet built)",
- "C09": "check under construction (exploration harness and kernel no-panic theorems in progress)",
  "C13": "check under construction (clone isolation / cache transparency model in progress)",
 }
 
